@@ -185,6 +185,10 @@ class ElementNode(XmlNode):
                     if qname == QNames.XSI_TYPE and self.is_own_xsi_type():
                         continue
 
+                    if qname == QNames.XSI_NIL and self.xsi_nil and self.meta.nillable:
+                        # Implied by the nillable class without content
+                        continue
+
                     self.bind_any_attr(params, var, qname, value)
                 else:
                     if (
